@@ -62,6 +62,7 @@ type Outcome struct {
 	Goroutines  int                            `json:"goroutines"`
 	Tracks      map[string][]string            `json:"tracks"`
 	Files       map[string][]string            `json:"files"`
+	Content     []string                       `json:"content,omitempty"`
 	MPDs        map[string]bool                `json:"mpds"`
 	Masters     map[string]string              `json:"masters"`
 	TrIDs       map[string][]string            `json:"trids"`
@@ -553,6 +554,9 @@ func run(c *lib.Ctx) error {
 		if sc.Restart {
 			half := (len(sc.Tracks) + 1) / 2
 			nUp = 2*half + len(sc.Tracks) + (len(sc.Tracks) - half) // earlier run, authorised segment 2, init of the new tracks
+			if sc.Raw {
+				nUp += half // the restored tracks' shorter third upload
+			}
 			if o.Statuses["401"] != len(sc.Tracks) {
 				c.Fail(id, "unauthorised-not-refused", fmt.Sprintf("statuses %v: %d requests without credentials must be answered 401", o.Statuses, len(sc.Tracks)), sc)
 				continue
@@ -586,6 +590,11 @@ func run(c *lib.Ctx) error {
 			}
 		}
 		if bad {
+			continue
+		}
+		if len(o.Content) > 0 {
+			sort.Strings(o.Content)
+			c.Fail(id, "stored-differs-from-last-upload", fmt.Sprintf("raw-segment mode, every upload answered as expected: %s", strings.Join(o.Content, "; ")), sc)
 			continue
 		}
 		if !sc.Raw { // raw-segment mode keeps no master track / trIDs; it is compared with its sequential reference below
